@@ -215,7 +215,8 @@ def pipeline(job, trace_props=None, tag=""):
     shutil.rmtree(wd, ignore_errors=True)
     os.makedirs(wd)
     log = open(os.path.join(wd, "log.txt"), "w")
-    info = {"job": job.name, "stages": {}}
+    info = {"job": job.name, "stages": {}, "kind": job.kind, "enforced": list(job.enforce) + list(job.rec), "replaced": list(job.replace) + list(job.replace_calls),
+            "loops": sorted(job.loops.keys()) if isinstance(job.loops, dict) else ([job.loops] if job.loops else [])}
     try:
         t0 = time.time()
         unit_i, fires = preprocess(job, wd, log)
@@ -292,7 +293,7 @@ def pipeline(job, trace_props=None, tag=""):
         # text UI for the all-properties run (the JSON UI builds a trace for every failed property, which made a
         # run with 20 failures five times slower); JSON UI only for the single-property trace run of a replay
         out_txt = os.path.join(wd, "result.json" if trace_props else "result.txt")
-        cmd = ["cbmc", cur, "--verbosity", "6", "--drop-unused-functions", "--object-bits", "12"] + job.safety + job.cbmc
+        cmd = ["cbmc", cur, "--verbosity", "8", "--drop-unused-functions", "--object-bits", "12"] + job.safety + job.cbmc
         if degraded:
             cmd = [c for c in cmd if c != "--unwinding-assertions"] + ["--unwind", "4"]
         if job.solver:
@@ -350,6 +351,9 @@ def pipeline(job, trace_props=None, tag=""):
         m = re.search(r"Runtime Solver: ([\d.]+)s", body)
         info["solver_s"] = sum(float(x) for x in re.findall(r"Runtime Solver: ([\d.e+-]+)s", body))
         info["symex_s"] = sum(float(x) for x in re.findall(r"Runtime Symex: ([\d.e+-]+)s", body))
+        vc = re.findall(r"^(\d+) variables, (\d+) clauses", body, re.M)
+        if vc:
+            info["sat_vars"], info["sat_clauses"] = max(int(v) for v, _ in vc), max(int(c) for _, c in vc)
         info["wall"] = round(time.time() - t0, 2)
         return obls, info
     finally:
